@@ -368,7 +368,8 @@ impl<'a> World<'a> {
             }
             TokenOf::Some(t) => {
                 // the protocol's explicit exception: unauthenticated token request to a waiting 0.7 acceptor
-                if self.cfg.proto.is_v7() && state == "PendingConnect" && t == [0xff; 4] && d.len() >= 8 && d[0] & 0x04 != 0 && d[7] == 5 {
+                let ctrl_byte = if d.len() >= 8 && d[0] & 0x10 != 0 { HUFFMAN.decompress_into_vec(&d[7..]).ok().and_then(|p| p.first().copied()) } else { d.get(7).copied() };
+                if self.cfg.proto.is_v7() && state == "PendingConnect" && t == [0xff; 4] && d.len() >= 8 && d[0] & 0x04 != 0 && ctrl_byte == Some(5) {
                     ctx.count("probe_inject_skipped_v7_token_request_exception");
                     return None;
                 }
